@@ -13,6 +13,7 @@ import (
 	"encoding/json"
 	"errors"
 	"fmt"
+	"io"
 	"os"
 	"runtime"
 	"strings"
@@ -32,6 +33,7 @@ import (
 	"github.com/attestantio/vouch/util"
 	"github.com/google/uuid"
 	"github.com/rs/zerolog"
+	zerologger "github.com/rs/zerolog/log"
 	e2types "github.com/wealdtech/go-eth2-types/v2"
 	e2wtypes "github.com/wealdtech/go-eth2-wallet-types/v2"
 
@@ -281,6 +283,10 @@ type runner struct {
 
 var hungScenarios int
 
+// the property must not depend on the log level: the thorough tier runs every other scenario at
+// trace level (output discarded), which executes the code under `if e := log.Trace(); e.Enabled()`
+var logLevel = zerolog.Disabled
+
 func watchdog() time.Duration {
 	ms := EnvInt("VERIF_C12_WATCHDOG_MS", 2000)
 	if hungScenarios >= 3 {
@@ -434,7 +440,7 @@ func runScenario(s Scenario) Obs {
 		url = "file:///c12/execution-config.json"
 	}
 	svc := standard.NewForVerifC12(&standard.VerifC12Params{
-		LogLevel:                    zerolog.Disabled,
+		LogLevel:                    logLevel,
 		Majordomo:                   source{},
 		ChainTime:                   mocks.NewChainTime(32),
 		ConfigURL:                   url,
@@ -860,7 +866,17 @@ func TestC12(t *testing.T) {
 	for _, s := range LoadInputs[Scenario]("C12") {
 		run(s, "corpus")
 	}
+	trace := os.Getenv("VERIF_TIER") == "thorough"
+	if trace {
+		zerologger.Logger = zerolog.New(io.Discard)
+	}
 	for i := 0; i < n; i++ {
+		if trace && i%2 == 1 {
+			logLevel = zerolog.TraceLevel
+			col.Count("scenarios-at-trace-level")
+		} else {
+			logLevel = zerolog.Disabled
+		}
 		run(gen(rng.Fork(), search), "generated")
 	}
 	col.Note(fmt.Sprintf("scenarios that hung: %d", hungScenarios))
